@@ -435,12 +435,18 @@ theorem parseLinkDestination_step (W : WFSegs src segs) (Z : ∀ s ∈ segs, s.p
       have hn := remaining_nonneg F h1.abs.wf
       obtain ⟨r2, c2, g1, g2, g3, g4, g5, _⟩ := advance_ok F Z h1 (n := 0) (Int.le_refl _) hn
       have g1' : BlockReader.advance ((0 : Nat) : Int) r1 = .ok r2 := by exact_mod_cast g1
-      simp only [Option.getD_none, destPlain, g1']
+      simp only [Option.getD_none]
+      split
+      · exact ⟨_, r1, c1, rfl, h1, a1, a2, a3⟩
+      simp only [destPlain, g1']
       exact ⟨_, r2, c2, rfl, g2, by omega, by omega, by omega⟩
     | some l =>
       have hb := destPlain_bound _ l (Nat.le_refl _) 0 0
       obtain ⟨r2, c2, g1, g2, g3, g4, g5⟩ := advance_in_view F Z h1 hv (n := destPlain l 0 0) (by omega)
-      simp only [Option.getD_some, g1]
+      simp only [Option.getD_some]
+      split
+      · exact ⟨_, r1, c1, rfl, h1, a1, a2, a3⟩   -- an open parenthesis is left (repair ce3b6c4): rejected, reader not advanced
+      simp only [g1]
       exact ⟨_, r2, c2, rfl, g2, by omega, by omega, by omega⟩
 
 theorem parseLinkTitle_step (W : WFSegs src segs) (Z : ∀ s ∈ segs, s.padding = 0) {r : BlockReader} {c : BCur}
@@ -536,7 +542,9 @@ theorem parseLinkInline_post (W : WFSegs src segs) (Z : ∀ s ∈ segs, s.paddin
         obtain ⟨rr, y', st', c', q0, q1, q2, q3, q4, q5, q6⟩ := close_paren F Z hs hlk h4 hp
         simp only [q0, q1]
         exact ⟨_, st', c', rfl, q2, by omega, by omega, by omega, q6⟩
-      · obtain ⟨t, r5, c6, e5, h5, f1, f2, f3⟩ := parseLinkTitle_step W Z h4
+      · split
+        · exact ⟨none, _, c5, rfl, h4, by omega, by omega, by omega, rfl⟩   -- no white space in front of a title (8c83fd9)
+        obtain ⟨t, r5, c6, e5, h5, f1, f2, f3⟩ := parseLinkTitle_step W Z h4
         simp only [e5]
         cases t with
         | none => exact ⟨none, _, c6, rfl, h5, by omega, by omega, by omega, rfl⟩
